@@ -6,6 +6,7 @@ import (
 	"errors"
 	"fmt"
 	"io"
+	"reflect"
 	"sort"
 
 	"github.com/google/go-cmp/cmp"
@@ -162,6 +163,10 @@ func (orderedMap *Map[K, V]) Values() []V {
 	return values
 }
 
+// compareUnexportedFields lets values of any type be compared: go-cmp panics on
+// the unexported fields of a struct unless it is told what to do with them.
+var compareUnexportedFields = cmp.Exporter(func(reflect.Type) bool { return true })
+
 // Equal tells whether both maps hold the same keys, in the same order, with
 // equal values. The way the maps were built does not matter: a map emptied by
 // Remove is equal to a new one.
@@ -179,7 +184,7 @@ func (orderedMap *Map[K, V]) Equal(other *Map[K, V]) bool {
 			return false
 		}
 
-		if !cmp.Equal(orderedMap.records[key], other.records[key]) {
+		if !cmp.Equal(orderedMap.records[key], other.records[key], compareUnexportedFields) {
 			return false
 		}
 	}
